@@ -170,6 +170,12 @@ type xl struct {
 type closureInfo struct {
 	lit      *ast.FuncLit
 	captured []tvar
+	// a local FUNCTION `name := func(p T, …) R { return e }`: a call `name(a, …)` with local variables as arguments is
+	// the expression e with the parameters standing for those variables
+	retExpr ast.Expr
+	ptypes  []string
+	pnames  []string
+	rtype   string
 }
 
 type xerr struct{ msg string }
@@ -984,7 +990,29 @@ func (x *xl) callExpr(c *ast.CallExpr) (tx, bool) {
 	// a call of a local procedure `name := func() {…}`: its body, inlined
 	if id, ok := c.Fun.(*ast.Ident); ok {
 		if ci, isCl := x.closures[id.Name]; isCl {
-			if _, isVar := x.lookup(id.Name); !isVar && len(c.Args) == 0 {
+			if _, isVar := x.lookup(id.Name); !isVar && ci.retExpr != nil {
+				if len(c.Args) != len(ci.pnames) {
+					x.fail(c, "local function %s: arity", id.Name)
+				}
+				x.push()
+				for i, a := range c.Args {
+					aid, isId := a.(*ast.Ident)
+					if !isId {
+						x.pop()
+						x.fail(c, "local function %s: only local variables are in the subset as arguments", id.Name)
+					}
+					v, isLoc := x.lookup(aid.Name)
+					if !isLoc || v.typ != ci.ptypes[i] {
+						x.pop()
+						x.fail(c, "local function %s: argument %s is not a local variable of type %s", id.Name, aid.Name, ci.ptypes[i])
+					}
+					x.scopes[len(x.scopes)-1][ci.pnames[i]] = v
+				}
+				r := x.coerce(ci.retExpr, x.expr(ci.retExpr), ci.rtype)
+				x.pop()
+				return r, false
+			}
+			if _, isVar := x.lookup(id.Name); !isVar && len(c.Args) == 0 && ci.retExpr == nil {
 				pendingCall = &tcall{ctor: "stmt", value: x.scoped(ci.lit.Body)}
 				return tx{}, true
 			}
@@ -2012,11 +2040,30 @@ func (x *xl) assign(t *ast.AssignStmt) string {
 	if len(t.Lhs) == 1 && len(t.Rhs) == 1 && t.Tok == token.DEFINE {
 		if fl, ok := t.Rhs[0].(*ast.FuncLit); ok {
 			id, isId := t.Lhs[0].(*ast.Ident)
-			if !isId || (fl.Type.Params != nil && len(fl.Type.Params.List) != 0) || fl.Type.Results != nil {
-				x.fail(t, "local function literals are in the subset only as `name := func() {…}` (no parameters, no results)")
-			}
 			if x.closures == nil {
 				x.closures = map[string]*closureInfo{}
+			}
+			if isId && fl.Type.Results != nil && len(fl.Type.Results.List) == 1 && len(fl.Type.Results.List[0].Names) == 0 &&
+				len(fl.Body.List) == 1 {
+				// `name := func(p T, …) R { return e }`: a local function given by ONE expression
+				if rs, ok := fl.Body.List[0].(*ast.ReturnStmt); ok && len(rs.Results) == 1 {
+					ci := &closureInfo{lit: fl, captured: x.capturedLocals(fl), retExpr: rs.Results[0], rtype: x.goType(fl.Type.Results.List[0].Type)}
+					if fl.Type.Params != nil {
+						for _, f := range fl.Type.Params.List {
+							pt := x.goType(f.Type)
+							for _, n := range f.Names {
+								ci.pnames = append(ci.pnames, n.Name)
+								ci.ptypes = append(ci.ptypes, pt)
+							}
+						}
+					}
+					x.closures[id.Name] = ci
+					x.legend = append(x.legend, id.Name+" = a local function given by one expression: calls on local variables are that expression")
+					return ".skip"
+				}
+			}
+			if !isId || (fl.Type.Params != nil && len(fl.Type.Params.List) != 0) || fl.Type.Results != nil {
+				x.fail(t, "local function literals are in the subset only as `name := func() {…}` (no parameters, no results) or `name := func(…) T { return e }`")
 			}
 			x.closures[id.Name] = &closureInfo{lit: fl, captured: x.capturedLocals(fl)}
 			x.legend = append(x.legend, id.Name+" = a local procedure: calls are its body inlined; as a value it is [source text, captured locals]")
